@@ -84,3 +84,52 @@ func safeArgCases(g *Gen) []*Case {
 	}
 	return cases
 }
+
+// lookalikeCases: two errors with the same text and the same chain of types (so each "is" the
+// other) that carry DIFFERENT safe annotations, combined: what each declared safe must be retained.
+func lookalikeCases(g *Gen) []*Case {
+	var cases []*Case
+	n := 0
+	tok := func(op string, toks *[]Token) string {
+		g.nextTok++
+		t := fmt.Sprintf("T%dq", g.nextTok)
+		*toks = append(*toks, Token{Tok: t, Class: 'S', Op: op})
+		return t
+	}
+	mk := []struct {
+		name string
+		f    func(t string) error
+	}{
+		{"telemetry", func(t string) error { return errors.WithTelemetry(errors.New("boom"), t) }},
+		{"safe details", func(t string) error { return errors.WithSafeDetails(errors.New("boom"), "v=%s", errors.Safe(t)) }},
+		{"issue link", func(t string) error { return errors.WithIssueLink(errors.New("boom"), errors.IssueLink{IssueURL: "http://x/" + t}) }},
+		{"domain", func(t string) error { return errors.WithDomain(errors.New("boom"), errors.Domain("same")) }},
+	}
+	comb := []struct {
+		name string
+		f    func(a, b error) error
+	}{
+		{"CombineErrors", func(a, b error) error { return errors.CombineErrors(a, b) }},
+		{"WithSecondaryError", func(a, b error) error { return errors.WithSecondaryError(a, b) }},
+		{"Handled(CombineErrors)", func(a, b error) error { return errors.Handled(errors.CombineErrors(a, b)) }},
+		{"Join", func(a, b error) error { return errors.Wrap(errors.CombineErrors(errors.Wrap(a, "w"), errors.Wrap(b, "w")), "top") }},
+	}
+	for _, m := range mk[:3] {
+		for _, cb := range comb {
+			var toks []Token
+			a := m.f(tok("lookalike:"+m.name, &toks))
+			b := m.f(tok("lookalike:"+m.name, &toks))
+			var e error
+			if ok, _ := catch(func() { e = cb.f(a, b) }); !ok || e == nil {
+				continue
+			}
+			c := &Case{ID: fmt.Sprintf("lookalike%d", n), Err: e, Toks: toks, NoModel: true,
+				Rec: &R{Op: "special:lookalike:" + m.name + ":" + cb.name}}
+			c.Cmd = L(Sym("special"), Str("lookalike"), Str(m.name), Str(cb.name), Nat(n))
+			c.Real = L(Sym("res"), L(Sym("special")))
+			n++
+			cases = append(cases, c)
+		}
+	}
+	return cases
+}
